@@ -82,6 +82,9 @@ enum Dest {
     /// a destination that accepts at most `.1` bytes per `write` call (legal for io::Write:
     /// pipes, sockets, throttled writers, and write(2) itself above ~2 GiB behave like this)
     Short(MemSink, usize),
+    /// the same, and the call after every short write fails once with ErrorKind::Interrupted (a signal arriving
+    /// between two write(2) calls): callers must retry that call and must not re-send what was already accepted
+    ShortIntr(MemSink, usize, bool),
 }
 impl Write for Dest {
     fn write(&mut self, b: &[u8]) -> std::io::Result<usize> {
@@ -92,6 +95,17 @@ impl Write for Dest {
                 let k = b.len().min(*n);
                 m.write(&b[..k])
             }
+            Dest::ShortIntr(m, n, pending) => {
+                if *pending {
+                    *pending = false;
+                    return Err(std::io::Error::new(std::io::ErrorKind::Interrupted, "EINTR"));
+                }
+                let k = b.len().min(*n);
+                if k < b.len() {
+                    *pending = true;
+                }
+                m.write(&b[..k])
+            }
         }
     }
     fn flush(&mut self) -> std::io::Result<()> {
@@ -99,6 +113,7 @@ impl Write for Dest {
             Dest::Plain(m) => m.flush(),
             Dest::Buffered(m) => m.flush(),
             Dest::Short(m, _) => m.flush(),
+            Dest::ShortIntr(m, _, _) => m.flush(),
         }
     }
 }
@@ -108,6 +123,7 @@ enum DestKind {
     Plain,
     Buffered,
     Short,
+    ShortIntr,
 }
 impl DestKind {
     fn make(self, sink: &MemSink) -> Dest {
@@ -115,6 +131,7 @@ impl DestKind {
             DestKind::Plain => Dest::Plain(sink.clone()),
             DestKind::Buffered => Dest::Buffered(BufWriter::new(sink.clone())),
             DestKind::Short => Dest::Short(sink.clone(), 700),
+            DestKind::ShortIntr => Dest::ShortIntr(sink.clone(), 700, false),
         }
     }
     fn name(self) -> &'static str {
@@ -122,6 +139,7 @@ impl DestKind {
             DestKind::Plain => "plain_dest",
             DestKind::Buffered => "bufwriter_dest",
             DestKind::Short => "short_writing_dest",
+            DestKind::ShortIntr => "short_writing_interrupting_dest",
         }
     }
 }
@@ -145,7 +163,7 @@ pub fn c12x(ctx: &Ctx, begin: &mut dyn FnMut(J)) -> Outcome {
     out.nontrivial = k >= 1;
     let mut programs = 0u64;
     for inmemory in [true, false] {
-        for dk in [DestKind::Plain, DestKind::Buffered, DestKind::Short] {
+        for dk in [DestKind::Plain, DestKind::Buffered, DestKind::Short, DestKind::ShortIntr] {
             // (A) switch after p producer steps (steps = k writes + drop), then await
             for p in 0..=k + 1 {
                 programs += 1;
@@ -398,7 +416,7 @@ pub fn c12t(ctx: &Ctx, begin: &mut dyn FnMut(J)) -> Outcome {
         return c12_race(ctx, &mut r, begin);
     }
     let inmemory = r.chance(1, 2);
-    let dk = *r.pick(&[DestKind::Plain, DestKind::Buffered, DestKind::Short]);
+    let dk = *r.pick(&[DestKind::Plain, DestKind::Buffered, DestKind::Short, DestKind::ShortIntr]);
     let nwrites = *r.pick(&[0usize, 1, 2, 5, 20, 60]);
     let sizes: Vec<usize> = (0..nwrites).map(|_| *r.pick(&[0usize, 1, 7, 100, 4096, 8192, 20_000])).collect();
     let policy = r.below(5) as usize;
